@@ -207,6 +207,14 @@ T.update({
  'C20_j': dict(change='getBits high-byte mask (1<<bitsHi)-1 became 0x3f >> (6-bitsHi), zero at bitsHi == 7', needs='DecomposeNAF with w = 7 and a digit starting at bit 7 of a byte with low bits of the next byte set (the library only uses w = 4)', strengthened='no'),
 })
 
+T.update({
+ 'C05_j': dict(change='sm4.go ssX2: the high-lane s2 lookup indexes with t>>8 (a byte of the low lane) instead of t>>40', needs='portable two-block path with two different blocks (the suite feeds identical blocks to both lanes)', strengthened='no'),
+ 'C07_j': dict(change='gcm_amd64.s constantTimeCompare: byte-tail loop exit JL became JLE', needs='tag size 12..15 and a forgery confined to the last tag byte', strengthened='no'),
+ 'C10_j': dict(change='helper_amd64.s copyAsm: 2-byte tail step advances the source pointer by 1', needs='Seal/Open with a non-empty dst that must be reallocated and len(dst) % 4 == 3, prefix bytes not all equal', strengthened='no'),
+ 'C12_j': dict(change='TestPrivateKey compares only the low 31 bytes with n-1', needs='a valid key whose low 31 bytes exceed those of n-1 (e.g. 7FFF..FF): rejected, and skipped by GenerateKey; the usual boundary values behave', strengthened='no'),
+ 'C13_j': dict(change='ZA narrows len(id) to uint16 before the too-long test', needs='an id of 65536 bytes or more with len mod 65536 < 8192: accepted with a wrapped ENTL', strengthened='YES: the quick tier enumerated id lengths up to 16384 only (the thorough tier had 70000); both tiers now include 65535, 65536, 65552, 73727 and 131072'),
+})
+
 for name, t in sorted(T.items()):
     d = os.path.join(S, name)
     if not os.path.isdir(d):
